@@ -55,7 +55,12 @@ type Case struct {
 	Cuts   []int  `json:"cuts,omitempty"`   // stream offsets at which a read is forced to end
 	Trunc  int    `json:"trunc,omitempty"`  // bytes missing at the end of the stream (EOF inside a block)
 	IgnErr int    `json:"ignerr,omitempty"` // every IgnErr-th read fails with an error that ignoreError accepts (0 = never)
-	Seed   byte   `json:"seed,omitempty"`
+	// IgnData: the reads that fail with the ignorable error also deliver bytes (an io.Reader may return
+	// n > 0 together with an error, and the caller has to use those bytes first). Not done for the read
+	// that would serve the last bytes of the stream: what a reader owes for bytes it is given with its
+	// very last result before EOF is left open.
+	IgnData bool `json:"igndata,omitempty"`
+	Seed    byte `json:"seed,omitempty"`
 }
 
 const recvBufSize = defn.MaxNDNPacketSize * 32
@@ -112,24 +117,26 @@ var errEmptyBuffer = errors.New("verif: the reader was offered an empty buffer 1
 // script is the io.Reader: it serves stream[:end] in the chunks the case prescribes and
 // measures, for the non-triviality rule, where reads end.
 type script struct {
-	lo    *layout
-	end   int
-	off   int
-	steps []Step
-	si    int // current step
-	sr    int // reads done in current step
-	cuts  []int
-	ci    int
-	ign   int
-	nread int
-	empty int
+	lo      *layout
+	end     int
+	off     int
+	steps   []Step
+	si      int // current step
+	sr      int // reads done in current step
+	cuts    []int
+	ci      int
+	ign     int
+	ignData bool
+	nread   int
+	empty   int
 
-	blk          int // index of the block containing off
-	endsInHeader int
-	multiBlock   int
-	zeroReads    int
-	ignored      int
-	reads        int
+	blk             int // index of the block containing off
+	endsInHeader    int
+	multiBlock      int
+	zeroReads       int
+	ignored         int
+	ignoredWithData int
+	reads           int
 }
 
 func (s *script) next() int {
@@ -161,12 +168,20 @@ func (s *script) Read(p []byte) (int, error) {
 		return 0, nil
 	}
 	s.nread++
+	withErr := false
 	if s.ign > 0 && s.nread%s.ign == 0 {
-		s.ignored++
-		return 0, errIgnorable
+		if !s.ignData {
+			s.ignored++
+			return 0, errIgnorable
+		}
+		withErr = true
 	}
 	n := s.next()
 	if n == 0 {
+		if withErr {
+			s.ignored++
+			return 0, errIgnorable
+		}
 		s.zeroReads++
 		return 0, nil
 	}
@@ -202,6 +217,11 @@ func (s *script) Read(p []byte) (int, error) {
 	if b < s.end && b > s.lo.starts[s.blk] && b < s.lo.starts[s.blk]+s.lo.hdr[s.blk] {
 		s.endsInHeader++
 	}
+	if withErr && b < s.end {
+		s.ignored++
+		s.ignoredWithData++
+		return n, errIgnorable
+	}
 	return n, nil
 }
 
@@ -212,7 +232,7 @@ func newScript(c Case, lo *layout) *script {
 	}
 	cuts := append([]int{}, c.Cuts...)
 	sort.Ints(cuts)
-	return &script{lo: lo, end: end, steps: c.Steps, cuts: cuts, ign: c.IgnErr}
+	return &script{lo: lo, end: end, steps: c.Steps, cuts: cuts, ign: c.IgnErr, ignData: c.IgnData}
 }
 
 // scriptConn puts the script behind a net.Conn (for StreamFace).
@@ -221,7 +241,7 @@ type scriptConn struct{ s *script }
 func (c scriptConn) Read(p []byte) (int, error) {
 	n, err := c.s.Read(p)
 	if err == errIgnorable { // the application face has no notion of ignorable errors
-		return 0, nil
+		return n, nil
 	}
 	return n, err
 }
@@ -321,6 +341,9 @@ func classes(c Case, lo *layout, s *script) (cls []string, nontrivial bool) {
 	}
 	if s.ignored > 0 {
 		cls = append(cls, "ignored-error-reads")
+	}
+	if s.ignoredWithData > 0 {
+		cls = append(cls, "ignored-error-reads-that-deliver-bytes")
 	}
 	if c.Trunc > 0 {
 		cls = append(cls, "eof-inside-block")
@@ -596,11 +619,12 @@ func genCase(t *rapid.T) Case {
 	}
 	if rapid.IntRange(0, 5).Draw(t, "ignErr") == 0 {
 		c.IgnErr = rapid.IntRange(2, 50).Draw(t, "ignEvery")
+		c.IgnData = rapid.Bool().Draw(t, "ignData")
 	}
 	return c
 }
 
-const ruleC11 = "a stream of well-formed TLV blocks (type in 1/3/5-byte form, total block size 2..8800, biased to 2..5, 250..262 and 8790..8800; 0.3-0.6 MB quick, up to 3 MB thorough, 5% short streams) served through a scripted Read sequence (runs of 1/2/3/4/5/9-byte reads, small, about one block, several blocks, 8799/8800/8801/buffer-size, as much as offered, zero-length reads, forced read ends inside type/length fields, optional EOF inside a block, optional ignorable errors). Non-trivial: stream longer than the 281 600-byte receive buffer AND >=1 read ending inside a type/length field AND >=1 read spanning >=2 blocks"
+const ruleC11 = "a stream of well-formed TLV blocks (type in 1/3/5-byte form, total block size 2..8800, biased to 2..5, 250..262 and 8790..8800; 0.3-0.6 MB quick, up to 3 MB thorough, 5% short streams) served through a scripted Read sequence (runs of 1/2/3/4/5/9-byte reads, small, about one block, several blocks, 8799/8800/8801/buffer-size, as much as offered, zero-length reads, forced read ends inside type/length fields, optional EOF inside a block, optional ignorable errors - with or without bytes delivered by the same read). Non-trivial: stream longer than the 281 600-byte receive buffer AND >=1 read ending inside a type/length field AND >=1 read spanning >=2 blocks"
 
 func TestC11Fw(t *testing.T) {
 	rec := evid.New("C11", "TestC11Fw", "forwarder side readTlvStream: "+ruleC11)
